@@ -60,7 +60,7 @@ manifest = {
     'checks': checks,
     'notes': 'Repository fix commits: see known_findings.json (C10 LeftmostFirst duplicate acceptance, fixed). exit 2 = undecided (tooling), never an accusation.',
     'not_applicable': [
-        {'property_id': 'C14', 'reason': 'relational (two-run, permutation) and all-schedules property: no single-call contract can state it without a full functional spec of the slot layout, the label-ordered NFA passes it rests on are outside both verifiers, and neither Verus (no permission types in this code) nor Kani (no threads) reasons about concurrent searches'},
+        {'property_id': 'C14', 'reason': 'relational (two-run, permutation) and all-schedules property: no single-call contract can state it without a full functional spec of the slot layout chosen by find_base and of the order in which the label-ordered passes number states and outputs (a second implementation, not a contract), and neither Verus (no permission types in this code) nor Kani (no threads) reasons about concurrent searches'},
         {'property_id': 'C16', 'reason': 'process-level CLI behaviour through clap-derive, termcolor and std I/O macros; none has a Verus/Kani specification and replacing them would verify a look-alike, not daacfind'},
     ],
 }
